@@ -77,7 +77,7 @@ class Ctx:
         self.absorb(family, rep, tlc_s=t1 - t0, replay_s=t2 - t1)
         return rep
 
-    def absorb(self, family, rep, tlc_s=0.0, replay_s=0.0):
+    def absorb(self, family, rep, tlc_s=0.0, replay_s=0.0, allow_rejects=False):
         self.evaluations += rep["evaluations"]
         self.nontrivial += rep["distinct_nontrivial"]
         for v in rep["violations"]:
@@ -100,7 +100,7 @@ class Ctx:
         for s in rep.get("samples", [])[:2]:
             if len(self.samples) < 8:
                 self.samples.append({"family": family, **s})
-        if rep["programs"] > 0 and rep["rejected_by_compile"] * 2 > rep["evaluations"] and rep["n_violations"] == 0:
+        if not allow_rejects and rep["programs"] > 0 and rep["rejected_by_compile"] * 2 > rep["evaluations"] and rep["n_violations"] == 0:
             raise Undecided("family %s: more than half of the scope was rejected by Compile; the check would be vacuous" % family)
 
     def add_mc(self, name, stats, what, ok=True):
@@ -760,3 +760,106 @@ def c07(ctx):
     cases = ctx.gen_cases("C01")
     sel = [c for c in cases if c["id"] % (6 if quick else 2) == 0]
     ctx.replay("C07-file-vs-string", sel, ["filediff", "panic", "spans"], mode="both")
+
+
+# ------------------------------------------------------------------- C08
+RULES["C08"] = ("(a) every string of length <= 3 (quick) / 4 (thorough) over one representative per lexer character class "
+                "(25 classes incl. NUL), bare and after `find all `; (b) every character prefix and, enumerated by TLC from "
+                "spec/Grammar.tla, every token prefix, one-token deletion, duplication and adjacent swap of 15 corpus programs "
+                "covering the grammar; (c) every regex body of length <= 3/4 over 25 regex symbols inside @/../; (d) seeded "
+                "token soups and random bytes; each source compiled in a worker subprocess under a wall-clock and memory "
+                "budget; non-trivial = the source is rejected by Compile")
+
+TOKEN_RE = re.compile(r"""--\([\s\S]*?\)--|--[^\n]*|@/[^/]*/|'(?:\\.|[^'\\])*'|"(?:\\.|[^"\\])*"|[A-Za-z][A-Za-z0-9]*|[0-9]+|<=|>=|==|!=|:=|\S""")
+
+
+def corpus_programs():
+    with open(os.path.join(vlib.VERIF, "corpus", "programs.json")) as f:
+        return json.load(f)
+
+
+def run_lex_mc(ctx, name, repset, maxlen, emit, dev=(), expect=None):
+    d = ctx.scratch.sub("lex_" + name)
+    devs = "{" + ", ".join('"%s"' % x for x in dev) + "}"
+    cfg = ("SPECIFICATION Spec\nCONSTANT MaxLen = %d\nCONSTANT RepSet = \"%s\"\nCONSTANT LexDev = %s\nINVARIANTS LexTotal Progress %s\n"
+           "CHECK_DEADLOCK FALSE\n" % (maxlen, repset, devs, emit))
+    out, st = vlib.run_tlc(d, "MC_Lex", cfg, workers=vlib.NCPU, timeout=900, heap="8g")
+    m = re.search(r"Error: Invariant (\w+) is violated", out)
+    if expect is None:
+        if m or not st["ok"]:
+            raise Undecided("model checking of spec/Lexer.tla failed:\n" + vlib.tlc_error_excerpt(out, 40))
+        return vlib.tlc_json_lines(out), st
+    ok = bool(m) and m.group(1) == expect
+    ctx.sensitivity.append({"switch": list(dev), "expected_violation": expect, "tlc_reported": m.group(1) if m else None, "ok": ok})
+    if not ok:
+        raise Undecided("sensitivity run %s did not report %s" % (name, expect))
+    return [], st
+
+
+def compile_check(ctx, family, lines, wraps):
+    d = ctx.scratch.sub("cc_" + family)
+    ip, rp = os.path.join(d, "in.ndjson"), os.path.join(d, "report.json")
+    with open(ip, "w") as f:
+        for ln in lines:
+            f.write(ln if isinstance(ln, str) else json.dumps(ln))
+            f.write("\n")
+    p = subprocess.run([ctx.get_harness(), "compilecheck", "-in", ip, "-wraps", wraps, "-report", rp, "-family", family,
+                        "-replaydir", os.path.join(vlib.VERIF, "replays", "C08")], capture_output=True, text=True)
+    if p.returncode != 0 or not os.path.exists(rp):
+        raise Undecided("compilecheck failed: " + p.stderr[-1500:])
+    with open(rp) as f:
+        rep = json.load(f)
+    for k in ("abstained_quirk", "ast_checked", "ast_mismatch"):
+        rep.setdefault(k, 0)
+    ctx.absorb(family, rep, allow_rejects=True)
+    return rep
+
+
+@check("C08")
+def c08(ctx):
+    ctx.technique = ("lexer automaton spec/Lexer.tla model-checked total (LexTotal, Progress; AsIsFinalSwitch/RegexIgnoresEof "
+                     "switches give counterexamples); TLC-enumerated sources, regex bodies and token mutants (spec/Grammar.tla) "
+                     "compiled by the real code in budgeted worker subprocesses")
+    quick = ctx.tier == "quick"
+    n = 3 if quick else 4
+    docs, st = run_lex_mc(ctx, "total", "lex", n, "EmitLex")
+    ctx.add_mc("MC_Lex", st, "LexTotal and Progress for every string of length <= %d over the 25 class representatives" % n)
+    compile_check(ctx, "C08-lexer-strings", docs, "bare,findall")
+    docs, st = run_lex_mc(ctx, "regex", "regex", n, "EmitSrc")
+    ctx.add_mc("MC_Lex(regex bodies)", st, "enumeration of regex bodies; lexer total on them")
+    compile_check(ctx, "C08-regex-bodies", docs, "regex")
+    # token mutants from the grammar machine
+    progs = corpus_programs()
+    d = ctx.scratch.sub("grammar")
+    with open(os.path.join(d, "corpus.ndjson"), "w") as f:
+        for i, pr in enumerate(progs):
+            f.write(json.dumps({"id": i + 1, "toks": TOKEN_RE.findall(pr)}) + "\n")
+    out, st = vlib.run_tlc(d, "Grammar", "SPECIFICATION Spec\nCONSTANT CorpusFile = \"corpus.ndjson\"\nINVARIANT Emit\nCHECK_DEADLOCK FALSE\n",
+                           workers=4, timeout=600, heap="2g")
+    if not st["ok"]:
+        raise Undecided("spec/Grammar.tla failed:\n" + vlib.tlc_error_excerpt(out))
+    ctx.add_mc("Grammar", st, "token prefixes, deletions, duplications, adjacent swaps of the corpus programs")
+    compile_check(ctx, "C08-token-mutants", vlib.tlc_json_lines(out), "bare")
+    # character prefixes of the corpus and of valid regex literals
+    lines = []
+    regexes = ["a(b|c)+[d-f]?\\d{2,3}$", "(?<n>a*)\\k<n>", "(?:ab|c){1,}?\\1", "^[^a-c\\]]+?$", "((a)b)\\2\\1", "\\b\\w+\\B.\\S\\D"]
+    for pr in progs + ["find all @/%s/" % r for r in regexes]:
+        for k in range(len(pr) + 1):
+            lines.append({"text": pr[:k] if k else " "})
+    compile_check(ctx, "C08-char-prefixes", lines, "bare")
+    # seeded soups
+    import random
+    rnd = random.Random(ctx.seed)
+    vocab = sorted(set(t for pr in progs for t in TOKEN_RE.findall(pr))) + ["(", ")", "{", "}", "=", ",", "begin", "end", "named", "x", "1"]
+    soups = []
+    for _ in range(3000 if quick else 30000):
+        soups.append({"text": " ".join(rnd.choice(vocab) for _ in range(rnd.randint(1, 12)))})
+    for _ in range(1500 if quick else 15000):
+        soups.append({"src": [rnd.randint(1, 127) for _ in range(rnd.randint(1, 24))]})
+    for _ in range(500 if quick else 5000):
+        soups.append({"src": [rnd.randint(0, 255) for _ in range(rnd.randint(1, 16))]})
+    compile_check(ctx, "C08-seeded-soups", soups, "bare,findall")
+    ctx.exhaustive = False
+    # sensitivity of the lexer model
+    run_lex_mc(ctx, "sens-final", "lex", 2, "", dev=["AsIsFinalSwitch"], expect="LexTotal")
+    run_lex_mc(ctx, "sens-regexeof", "lex", 3, "", dev=["RegexIgnoresEof"], expect="LexTotal")
